@@ -1,6 +1,8 @@
 import FluteModel.Lemmas.SpecLct
 import FluteModel.Lemmas.Ntp
 import FluteModel.Lemmas.Codec
+import FluteModel.Lemmas.Packet
+import FluteModel.Lemmas.SpecRound
 import FluteModel.Legacy
 import FluteModel.Props.C04Wire   -- parser totality (C04, wire part) is built and checked together with C06
 /-
@@ -22,38 +24,8 @@ open Flute Flute.Bytes Flute.Lct Flute.Fti Flute.Alc Flute.Spec Flute.Ntp
 theorem lct_build_eq_spec (psi cci tsi toi cp : Nat) (co cs : Bool)
     (hpsi : psi < 4) (hcp : cp < 256) (hcci : cci < 2^128) (htsi : tsi < 2^48) (htoi : toi < 2^112) :
     (specOfBuild psi cci tsi toi cp co cs).Valid ∧
-    pushLctHeader psi cci tsi toi cp co cs = (specOfBuild psi cci tsi toi cp co cs).encode := by
-  obtain ⟨hc, hcv⟩ := cOf_spec cci hcci
-  obtain ⟨hs, ho, hh, htv, hov⟩ := soh_spec tsi toi htsi htoi
-  have hb1 : b2n co < 2 := by unfold b2n; split <;> omega
-  have hb2 : b2n cs < 2 := by unfold b2n; split <;> omega
-  have hvalid : (specOfBuild psi cci tsi toi cp co cs).Valid := by
-    unfold specOfBuild
-    rw [widthFlags_eq]
-    refine ⟨rfl, hc, hpsi, hs, ho, hh, hb2, hb1, hcp, ?_, ?_, ?_, ?_, ?_⟩
-    · simp only [LctFields.cciBits]
-      have : 32 * (cOf (nbBytes128 cci 0) + 1) = 8 * ((cOf (nbBytes128 cci 0) + 1) * 4) := by omega
-      rw [this, Nat.pow_mul]; exact hcv
-    · simp only [LctFields.tsiBits]
-      have : 32 * sOf (nbBytes64 tsi 2) + 16 * hOf (nbBytes64 tsi 2) (nbBytes128 toi 2) =
-          8 * (sOf (nbBytes64 tsi 2) * 4 + hOf (nbBytes64 tsi 2) (nbBytes128 toi 2) * 2) := by omega
-      rw [this, Nat.pow_mul]; exact htv
-    · simp only [LctFields.toiBits]
-      have : 32 * oOf (nbBytes128 toi 2) + 16 * hOf (nbBytes64 tsi 2) (nbBytes128 toi 2) =
-          8 * (oOf (nbBytes128 toi 2) * 4 + hOf (nbBytes64 tsi 2) (nbBytes128 toi 2) * 2) := by omega
-      rw [this, Nat.pow_mul]; exact hov
-    · simp only [LctFields.hdrLen, extsWords]; omega
-    · intro e he; simp at he
-  refine ⟨hvalid, ?_⟩
-  rw [pushLctHeader_layout psi cci tsi toi cp co cs hpsi hcp hcci htsi htoi]
-  unfold LctFields.encode
-  rw [LctFields.encode_diagram _ hvalid]
-  simp only [specOfBuild, widthFlags_eq, encodeExts, List.append_nil, LctFields.hdrLen, extsWords]
-  simp only [Nat.one_mul, Nat.zero_mul, Nat.add_zero]
-  have : 2 + oOf (nbBytes128 toi 2) + sOf (nbBytes64 tsi 2) + hOf (nbBytes64 tsi 2) (nbBytes128 toi 2) +
-      cOf (nbBytes128 cci 0) = 1 + (cOf (nbBytes128 cci 0) + 1) +
-      (sOf (nbBytes64 tsi 2) + oOf (nbBytes128 toi 2) + hOf (nbBytes64 tsi 2) (nbBytes128 toi 2)) := by omega
-  rw [this]
+    pushLctHeader psi cci tsi toi cp co cs = (specOfBuild psi cci tsi toi cp co cs).encode :=
+  pushLctHeader_eq_spec psi cci tsi toi cp co cs hpsi hcp hcci htsi htoi
 
 /-- **lct_roundtrip**: whatever follows the header (extensions, payload id, payload), flute's parser
     returns exactly the values given to the builder, with `len` = the header length = `HDR_LEN * 4` -/
@@ -101,54 +73,16 @@ theorem lct_roundtrip (psi cci tsi toi cp : Nat) (co cs : Bool) (rest : List Nat
     width choice (minimal or not), any extensions (known or unknown, `1 ≤ HEL ≤ 255`), anything after
     the header - returns the spec's values -/
 theorem lct_parse_eq_spec (f : LctFields) (hv : f.Valid) (payload : List Nat) :
-    parseLctHeader (f.encode ++ payload) = .ok (parsedOf f) := by
-  have hv' := hv
-  obtain ⟨h1, hc, hpsi, hs, ho, hh, ha, hb, hcp, hcci, htsi, htoi, hhl, hexts⟩ := hv'
-  unfold LctFields.encode
-  rw [LctFields.encode_diagram f hv, h1]
-  have hle := length_encodeExts f.exts hexts
-  have hcci' : f.cci < 256 ^ ((f.c + 1) * 4) := by
-    have : f.cciBits = 8 * ((f.c + 1) * 4) := by unfold LctFields.cciBits; omega
-    rw [this, Nat.pow_mul] at hcci; exact hcci
-  have htsi' : f.tsi < 256 ^ (f.s * 4 + f.h * 2) := by
-    have : f.tsiBits = 8 * (f.s * 4 + f.h * 2) := by unfold LctFields.tsiBits; omega
-    rw [this, Nat.pow_mul] at htsi; exact htsi
-  have htoi' : f.toi < 256 ^ (f.o * 4 + f.h * 2) := by
-    have : f.toiBits = 8 * (f.o * 4 + f.h * 2) := by unfold LctFields.toiBits; omega
-    rw [this, Nat.pow_mul] at htoi; exact htoi
-  have := parse_layout 1 f.c f.psi f.s f.o f.h 0 f.a f.b f.hdrLen f.cp f.cci f.tsi f.toi (encodeExts f.exts ++ payload)
-    (.inl rfl) hc hpsi hs ho hh (by omega) ha hb hcci' htsi' htoi'
-    (by unfold LctFields.hdrLen; omega)
-    (by simp only [List.length_append, hle]; unfold LctFields.hdrLen; omega)
-  simp only [List.append_assoc] at this ⊢
-  rw [this]
-  unfold parsedOf
-  congr 2
-  · omega
-  · apply decide_eq_decide.mpr; omega
-  · apply decide_eq_decide.mpr; omega
-  · omega
+    parseLctHeader (f.encode ++ payload) = .ok (parsedOf f) :=
+  parseLctHeader_encode f hv payload
 
 /-- **ext_walk_eq_spec**: on every valid RFC header - any list of well-formed extensions, known or unknown
     HET, every `1 ≤ HEL ≤ 255` - `get_ext` returns, for EVERY extension type asked for, exactly the first
     extension of that type the spec's receiver finds (its octets), skipping all others; `Ok(None)` iff
     there is none.  (False before the repair of D7 for HEL ≥ 64.) -/
 theorem ext_walk_eq_spec (f : LctFields) (hv : f.Valid) (payload : List Nat) (het : Nat) :
-    getExt (f.encode ++ payload) (parsedOf f) het = .ok ((findExt f.exts het).map Ext.encode) := by
-  have hexts := hv.2.2.2.2.2.2.2.2.2.2.2.2.2
-  have hle := length_encodeExts f.exts hexts
-  unfold getExt LctFields.encode
-  have hfixed : (Spec.encode f.diagram).length = 4 * (1 + (f.c + 1) + (f.s + f.o + f.h)) := by
-    rw [LctFields.encode_diagram f hv]
-    simp only [List.length_append, List.length_cons, List.length_nil, length_beBytes]; omega
-  have hs : slice (Spec.encode f.diagram ++ encodeExts f.exts ++ payload) (parsedOf f).headerExtOffset (parsedOf f).len =
-      .ok (encodeExts f.exts) := by
-    rw [List.append_assoc]
-    apply slice_mid
-    · rw [hfixed]; rfl
-    · rw [hfixed, hle]; unfold parsedOf LctFields.hdrLen; simp only []; omega
-  rw [hs, Out.bind_ok]
-  exact getExtLoop_encodeExts f.exts hexts het _ (Nat.le_refl _)
+    getExt (f.encode ++ payload) (parsedOf f) het = .ok ((findExt f.exts het).map Ext.encode) :=
+  getExt_encode f hv payload het
 
 /-- non-vacuity of `lct_parse_eq_spec` / `ext_walk_eq_spec`: a valid header with NON-minimal widths, an unknown
     extension with HEL = 64, an unknown fixed-length extension, then EXT_CENC -/
@@ -580,4 +514,302 @@ theorem ext_time_roundtrip (us : Nat) (h : us / 1000000 + 2208988800 < 2^32) :
   simp only [Nat.reducePow]
   rewrite [Nat.div_add_mod' ntp 4294967296, h3]
   rfl
+/-! ## per-scheme round trips (`get_fti ∘ add_fti`, `get_fec_payload_id ∘ add_fec_payload_id`) -/
+
+theorem fti_nocode_roundtrip (oti : Oti) (L : Nat) (hf : oti.fecId = 0) (hL : L < 2^48) (hE : oti.esl < 2^16)
+    (hB : oti.maxSbl < 2^32) :
+    FtiOk oti L (Spec.encode (ftiNoCode L oti.esl oti.maxSbl)) 4 (otiOf 0 0 oti.maxSbl oti.esl 0 .none) := by
+  refine ⟨?_, ?_, by omega, ?_⟩
+  · unfold addFti; rw [if_pos (by rw [hf]; rfl)]; exact fti_nocode_eq_spec oti L hL hE hB
+  · spec_bytes
+    simp only [Nat.reducePow] at hL hE hB
+    exact extBytes_beBytes 4 _ 64 (by omega) (by omega) (by omega) (by simp only [Nat.reduceMul, Nat.reduceSub, Nat.reducePow]; omega)
+      (by simp only [Nat.reduceMul, Nat.reduceSub, Nat.reducePow]; omega)
+  · unfold getFtiBytes; rw [if_pos (by rw [hf]; rfl)]; exact fti_nocode_parse_spec L _ _ hL hE hB
+
+theorem fti_rs28_roundtrip (oti : Oti) (L : Nat) (hf : oti.fecId = 5) (hL : L < 2^48) (hE : oti.esl < 2^16) (hN : oti.parity + oti.maxSbl < 256) :
+    FtiOk oti L (Spec.encode (ftiRs28 L oti.esl oti.maxSbl (oti.parity + oti.maxSbl))) 3 (otiOf 5 0 oti.maxSbl oti.esl oti.parity .none) := by
+  refine ⟨?_, ?_, by omega, ?_⟩
+  · unfold addFti; simp only [hf, NOCODE, RS28, RS28US, RS2M, RAPTORQ, RAPTOR, Nat.reduceEqDiff, if_true, if_false]
+    exact fti_rs28_eq_spec oti L hL hE hN
+  · spec_bytes
+    simp only [Nat.reducePow] at hL hE
+    exact extBytes_beBytes 3 _ 64 (by omega) (by omega) (by omega) (by simp only [Nat.reduceMul, Nat.reduceSub, Nat.reducePow]; omega)
+      (by simp only [Nat.reduceMul, Nat.reduceSub, Nat.reducePow]; omega)
+  · unfold getFtiBytes; simp only [hf, NOCODE, RS28, RS28US, RS2M, RAPTORQ, RAPTOR, Nat.reduceEqDiff, if_true, if_false]
+    rw [fti_rs28_parse_spec L _ _ _ hL hE (by omega) hN]; congr 3; omega
+
+theorem fti_rs28us_roundtrip (oti : Oti) (L : Nat) (hf : oti.fecId = 129) (hL : L < 2^48) (hI : oti.inst < 2^16) (hE : oti.esl < 2^16) (hN : oti.parity + oti.maxSbl < 2^16) :
+    FtiOk oti L (Spec.encode (ftiSmallBlock L oti.inst oti.esl oti.maxSbl (oti.parity + oti.maxSbl))) 4 (otiOf 129 oti.inst oti.maxSbl oti.esl oti.parity .none) := by
+  refine ⟨?_, ?_, by omega, ?_⟩
+  · unfold addFti; simp only [hf, NOCODE, RS28, RS28US, RS2M, RAPTORQ, RAPTOR, Nat.reduceEqDiff, if_true, if_false]
+    exact fti_rs28us_eq_spec oti L hL hI hE hN
+  · spec_bytes
+    simp only [Nat.reducePow] at hL hI hE hN
+    exact extBytes_beBytes 4 _ 64 (by omega) (by omega) (by omega) (by simp only [Nat.reduceMul, Nat.reduceSub, Nat.reducePow]; omega)
+      (by simp only [Nat.reduceMul, Nat.reduceSub, Nat.reducePow]; omega)
+  · unfold getFtiBytes; simp only [hf, NOCODE, RS28, RS28US, RS2M, RAPTORQ, RAPTOR, Nat.reduceEqDiff, if_true, if_false]
+    rw [fti_rs28us_parse_spec L _ _ _ _ hL hI hE (by omega) hN]; congr 3; omega
+
+theorem fti_rs2m_roundtrip (oti : Oti) (L : Nat) (m g : Nat) (hf : oti.fecId = 2) (hss : oti.ss = .rs m g) (hL : L < 2^48) (hm : m < 256) (hg : g < 256) (hE : oti.esl < 2^16) (hN : oti.parity + oti.maxSbl < 2^16) :
+    FtiOk oti L (Spec.encode (ftiRs2m L m g oti.esl oti.maxSbl (oti.parity + oti.maxSbl))) 4 (otiOf 2 0 oti.maxSbl oti.esl oti.parity (.rs (if m = 0 then 8 else m) (if g = 0 then 1 else g))) := by
+  refine ⟨?_, ?_, by omega, ?_⟩
+  · unfold addFti; simp only [hf, NOCODE, RS28, RS28US, RS2M, RAPTORQ, RAPTOR, Nat.reduceEqDiff, if_true, if_false]
+    exact fti_rs2m_eq_spec oti L m g hss hL hm hg hE hN
+  · spec_bytes
+    simp only [Nat.reducePow] at hL hE hN
+    exact extBytes_beBytes 4 _ 64 (by omega) (by omega) (by omega) (by simp only [Nat.reduceMul, Nat.reduceSub, Nat.reducePow]; omega)
+      (by simp only [Nat.reduceMul, Nat.reduceSub, Nat.reducePow]; omega)
+  · unfold getFtiBytes; simp only [hf, NOCODE, RS28, RS28US, RS2M, RAPTORQ, RAPTOR, Nat.reduceEqDiff, if_true, if_false]
+    rw [fti_rs2m_parse_spec L m g _ _ _ hL hm hg hE (by omega) hN]; congr 3; omega
+
+theorem fti_raptorq_roundtrip (oti : Oti) (L : Nat) (z n al : Nat) (hf : oti.fecId = 6) (hss : oti.ss = .raptorq z n al) (hL : L < 2^40) (hT : oti.esl < 2^16) (hz : z < 2^8) (hn : n < 2^16) (hal : al < 2^8)
+    (hT0 : oti.esl ≠ 0) (hz0 : z ≠ 0) (hal0 : al ≠ 0) (hdiv : oti.esl % al = 0) :
+    FtiOk oti L (Spec.encode (ftiRaptorQ L oti.esl z n al)) 4 (otiOf 6 0 (divCeil (divCeil L z) oti.esl % 2^32) oti.esl 0 (.raptorq z n al)) := by
+  refine ⟨?_, ?_, by omega, ?_⟩
+  · unfold addFti; simp only [hf, NOCODE, RS28, RS28US, RS2M, RAPTORQ, RAPTOR, Nat.reduceEqDiff, if_true, if_false]
+    exact fti_raptorq_eq_spec oti L z n al hss hL hT hz hn hal
+  · spec_bytes
+    simp only [Nat.reducePow] at hL hT hz hn hal
+    exact extBytes_beBytes 4 _ 64 (by omega) (by omega) (by omega) (by simp only [Nat.reduceMul, Nat.reduceSub, Nat.reducePow]; omega)
+      (by simp only [Nat.reduceMul, Nat.reduceSub, Nat.reducePow]; omega)
+  · unfold getFtiBytes; simp only [hf, NOCODE, RS28, RS28US, RS2M, RAPTORQ, RAPTOR, Nat.reduceEqDiff, if_true, if_false]
+    rw [fti_raptorq_parse_spec L _ z n al hL hT hz hn hal]; unfold raptorCheck; rw [if_neg hT0, if_neg hz0, if_neg hal0, if_neg (by omega)]
+
+theorem fti_raptor_roundtrip (oti : Oti) (L : Nat) (z n al : Nat) (hf : oti.fecId = 1) (hss : oti.ss = .raptor z n al) (hL : L < 2^48) (hT : oti.esl < 2^16) (hz : z < 2^16) (hn : n < 2^8) (hal : al < 2^8)
+    (hT0 : oti.esl ≠ 0) (hz0 : z ≠ 0) (hal0 : al ≠ 0) (hdiv : oti.esl % al = 0) :
+    FtiOk oti L (Spec.encode (ftiRaptor L oti.esl z n al)) 4 (otiOf 1 0 (divCeil (divCeil L z) oti.esl % 2^32) oti.esl 0 (.raptor z n al)) := by
+  refine ⟨?_, ?_, by omega, ?_⟩
+  · unfold addFti; simp only [hf, NOCODE, RS28, RS28US, RS2M, RAPTORQ, RAPTOR, Nat.reduceEqDiff, if_true, if_false]
+    exact fti_raptor_eq_spec oti L z n al hss hL hT hz hn hal
+  · spec_bytes
+    simp only [Nat.reducePow] at hL hT hz hn hal
+    exact extBytes_beBytes 4 _ 64 (by omega) (by omega) (by omega) (by simp only [Nat.reduceMul, Nat.reduceSub, Nat.reducePow]; omega)
+      (by simp only [Nat.reduceMul, Nat.reduceSub, Nat.reducePow]; omega)
+  · unfold getFtiBytes; simp only [hf, NOCODE, RS28, RS28US, RS2M, RAPTORQ, RAPTOR, Nat.reduceEqDiff, if_true, if_false]
+    rw [fti_raptor_parse_spec L _ z n al hL hT hz hn hal]; unfold raptorCheck; rw [if_neg hT0, if_neg hz0, if_neg hal0, if_neg (by omega)]
+
+theorem payload_id_nocode_roundtrip (oti : Oti) (sbn esi sbl : Nat) (hf : oti.fecId = 0) (h1 : sbn < 2^16) (h2 : esi < 2^16) :
+    PidOk oti sbn esi sbl (Spec.encode (fpidNoCode sbn esi)) { sbn := sbn, esi := esi, sbl := none } := by
+  have hl : (Spec.encode (fpidNoCode sbn esi)).length = 4 := by spec_bytes; rw [length_beBytes]
+  refine pidOk_of oti sbn esi sbl _ _ (payload_id_nocode_eq_spec oti sbn esi sbl hf h1 h2) (by rw [hl, hf]; rfl) ?_
+  rw [hl]; exact payload_id_nocode_parse_spec oti [] [] sbn esi hf h1 h2
+
+theorem payload_id_rs28_roundtrip (oti : Oti) (sbn esi sbl : Nat) (hf : oti.fecId = 5) (h1 : sbn < 2^24) (h2 : esi < 2^8) :
+    PidOk oti sbn esi sbl (Spec.encode (fpidRs28 sbn esi)) { sbn := sbn, esi := esi, sbl := none } := by
+  have hl : (Spec.encode (fpidRs28 sbn esi)).length = 4 := by spec_bytes; rw [length_beBytes]
+  refine pidOk_of oti sbn esi sbl _ _ (payload_id_rs28_eq_spec oti sbn esi sbl hf h1 h2) (by rw [hl, hf]; rfl) ?_
+  rw [hl]; exact payload_id_rs28_parse_spec oti [] [] sbn esi hf h1 h2
+
+theorem payload_id_rs28us_roundtrip (oti : Oti) (sbn esi sbl : Nat) (hf : oti.fecId = 129) (h1 : sbn < 2^32)
+    (h2 : esi < 2^16) (h3 : sbl < 2^16) :
+    PidOk oti sbn esi sbl (Spec.encode (fpidSmallBlock sbn sbl esi)) { sbn := sbn, esi := esi, sbl := some sbl } := by
+  have hl : (Spec.encode (fpidSmallBlock sbn sbl esi)).length = 8 := by spec_bytes; rw [length_beBytes]
+  refine pidOk_of oti sbn esi sbl _ _ (payload_id_rs28us_eq_spec oti sbn esi sbl hf h1 h2 h3) (by rw [hl, hf]; rfl) ?_
+  rw [hl]; exact payload_id_rs28us_parse_spec oti [] [] sbn sbl esi hf h1 h2 h3
+
+theorem payload_id_raptorq_roundtrip (oti : Oti) (sbn esi sbl : Nat) (hf : oti.fecId = 6) (h1 : sbn < 2^8) (h2 : esi < 2^24) :
+    PidOk oti sbn esi sbl (Spec.encode (fpidRaptorQ sbn esi)) { sbn := sbn, esi := esi, sbl := none } := by
+  have hl : (Spec.encode (fpidRaptorQ sbn esi)).length = 4 := by spec_bytes; rw [length_beBytes]
+  refine pidOk_of oti sbn esi sbl _ _ (payload_id_raptorq_eq_spec oti sbn esi sbl hf h1 h2) (by rw [hl, hf]; rfl) ?_
+  rw [hl]; exact payload_id_raptorq_parse_spec oti [] [] sbn esi hf h1 h2
+
+theorem payload_id_raptor_roundtrip (oti : Oti) (sbn esi sbl : Nat) (hf : oti.fecId = 1) (h1 : sbn < 2^16) (h2 : esi < 2^16) :
+    PidOk oti sbn esi sbl (Spec.encode (fpidRaptor sbn esi)) { sbn := sbn, esi := esi, sbl := none } := by
+  have hl : (Spec.encode (fpidRaptor sbn esi)).length = 4 := by spec_bytes; rw [length_beBytes]
+  refine pidOk_of oti sbn esi sbl _ _ (payload_id_raptor_eq_spec oti sbn esi sbl hf h1 h2) (by rw [hl, hf]; rfl) ?_
+  rw [hl]; exact payload_id_raptor_parse_spec oti [] [] sbn esi hf h1 h2
+
+theorem payload_id_rs2m_roundtrip (oti : Oti) (m g sbn esi sbl : Nat) (hf : oti.fecId = 2) (hss : oti.ss = .rs m g)
+    (hm : m < 32) (h1 : sbn < 2^(32 - m)) (h2 : esi < 2^m) :
+    PidOk oti sbn esi sbl (Spec.encode (fpidRs2m m sbn esi)) { sbn := sbn, esi := esi, sbl := none } := by
+  have hl : (Spec.encode (fpidRs2m m sbn esi)).length = 4 := by
+    rw [encode_fpidRs2m m sbn esi (by omega), length_beBytes]
+  refine pidOk_of oti sbn esi sbl _ _ (payload_id_rs2m_eq_spec oti m g sbn esi sbl hf hss hm h1 h2) (by rw [hl, hf]; rfl) ?_
+  rw [hl]; exact payload_id_rs2m_parse_spec oti [] [] m g sbn esi hf hss hm h1 h2
+
+
+/-! ## whole-packet composition -/
+
+/-- **alc_pkt_roundtrip**: `parse_alc_pkt (new_alc_pkt x) = Ok x`, all fields, for every packet flute can build.
+    For every OTI of a known scheme whose EXT_FTI and payload id round-trip (`FtiOk` / `PidOk`: established over the
+    whole field ranges of each scheme by `fti_<scheme>_roundtrip` / `payload_id_<scheme>_roundtrip`), every
+    CCI < 2^128, TSI < 2^48, TOI < 2^112, A/B flag, profile, FDT instance id < 2^20 (TOI 0), content encoding,
+    instant of NTP era 0, payload:
+    the builder does not panic, the parser accepts the datagram, and returns the LCT values, codepoint and flags,
+    EXT_FDT version + instance id iff TOI = 0, EXT_CENC iff flute's condition, OTI + transfer length iff FTI is sent,
+    `get_sender_current_time` returns the instant to the microsecond iff enabled, `parse_payload_id` returns
+    SBN / ESI / source block length, the payload is exactly the tail after `data_payload_offset`, and
+    `len = data_alc_header_offset`, `data_payload_offset = len + payload-id length`.
+    This is the chaining through `inc_hdr_len`, `header_ext_offset`, `data_alc_header_offset` and
+    `data_payload_offset`: the proof goes through the RFC layout (`pktHeader`), i.e. the datagram is also what an
+    independent RFC implementation expects. -/
+theorem alc_pkt_roundtrip (oti : Oti) (cci tsi : Nat) (pkt : Pkt) (rfc3926 : Bool) (nowUs id : Nat)
+    (wfti : List Nat) (nfti : Nat) (o' : Oti) (wpid : List Nat) (pid : PayloadId)
+    (hk : knownFec oti.fecId = true) (hcci : cci < 2^128) (htsi : tsi < 2^48) (htoi : pkt.toi < 2^112)
+    (hfdt : pkt.toi = 0 → pkt.fdtId = some id ∧ id < 2^20)
+    (hcenc : pkt.cenc ≤ 3)
+    (hnow : pkt.senderCurrentTime = true → nowUs / 1000000 + 2208988800 < 2^32)
+    (hfti : (pkt.toi = 0 ∨ oti.inbandFti = true) → FtiOk oti pkt.transferLength wfti nfti o') (hn : nfti ≤ 4)
+    (hpid : PidOk oti pkt.sbn pkt.esi pkt.sourceBlockLength wpid pid) :
+    ∃ d p, newAlcPkt oti cci tsi pkt rfc3926 nowUs = .ok d ∧ parseAlcPkt d = .ok p ∧
+      p.lct.cci = cci ∧ p.lct.tsi = tsi ∧ p.lct.toi = pkt.toi ∧ p.lct.cp = oti.fecId ∧
+      p.lct.closeObject = pkt.closeObject ∧ p.lct.closeSession = false ∧
+      p.fdtInfo = (if pkt.toi = 0 then some (if rfc3926 = true then 1 else 2, id) else none) ∧
+      p.cenc = (if (pkt.toi = 0 ∧ pkt.cenc ≠ 0) ∨ pkt.inbandCenc = true then some pkt.cenc else none) ∧
+      p.oti = (if pkt.toi = 0 ∨ oti.inbandFti = true then some o' else none) ∧
+      p.transferLength = (if pkt.toi = 0 ∨ oti.inbandFti = true then some pkt.transferLength else none) ∧
+      getSenderCurrentTime d p = .ok (if pkt.senderCurrentTime = true then some nowUs else none) ∧
+      parsePayloadId d p oti = .ok pid ∧
+      d.drop p.payloadOffset = pkt.payload ∧
+      p.lct.len = p.alcHeaderOffset ∧ p.payloadOffset = p.lct.len + payloadIdLen oti.fecId ∧
+      p.payloadOffset + pkt.payload.length = d.length := by
+  have hcp : oti.fecId < 256 := by
+    simp only [knownFec, decide_eq_true_eq] at hk; omega
+  -- the NTP timestamp of the instant (irrelevant when no EXT_TIME is sent)
+  obtain ⟨ntp, hntp1, hntp2, hntp3⟩ : ∃ ntp, (pkt.senderCurrentTime = true → systemTimeToNtp nowUs = .ok ntp) ∧ ntp < 2^64 ∧
+      (pkt.senderCurrentTime = true → ntpToSystemTime ntp = .ok nowUs) := by
+    by_cases h : pkt.senderCurrentTime = true
+    · obtain ⟨ntp, a, b, c⟩ := ntp_roundtrip nowUs (hnow h)
+      exact ⟨ntp, fun _ => a, b, fun _ => c⟩
+    · exact ⟨0, fun h' => absurd h' h, by decide, fun h' => absurd h' h⟩
+  obtain ⟨hv, hbuild⟩ := newAlcPkt_layout oti cci tsi pkt rfc3926 nowUs ntp id wfti nfti o' wpid hcp hcci htsi htoi hfdt
+    (by omega) hntp1 hfti hn hpid.build
+  have hparse := parseAlcPkt_pktHeader oti cci tsi pkt rfc3926 ntp id wfti nfti o' wpid hv hk (fun h => (hfdt h).2) hcenc
+    hfti hpid.len
+  have hsct := getSenderCurrentTime_pktHeader oti cci tsi pkt rfc3926 ntp id wfti nfti o' (wpid ++ pkt.payload) hv
+    (fun h => (hfdt h).2) hcenc hfti hntp2
+  obtain ⟨hp1, hp2, hp3⟩ := parsePayloadId_pktHeader oti cci tsi pkt rfc3926 ntp id wfti o' oti wpid pkt.payload hv hpid.len
+  refine ⟨_, _, hbuild, hparse, rfl, rfl, rfl, rfl, rfl, rfl, rfl, rfl, rfl, rfl, ?_, ?_, hp2, rfl, ?_, hp3⟩
+  · rw [hsct]
+    by_cases h : pkt.senderCurrentTime = true
+    · rw [if_pos h, if_pos h, hntp3 h]; rfl
+    · rw [if_neg h, if_neg h]
+  · rw [hp1]; exact hpid.parse
+  · show payloadIdLen oti.fecId + _ = _ + payloadIdLen oti.fecId
+    exact Nat.add_comm _ _
+
+/-- **close_session_roundtrip**: the packet `new_alc_pkt_close_session(cci, tsi)` builds (A flag, TOI 0, No-Code
+    EXT_FTI with all-zero values, zero payload id, no payload) is the RFC layout of those values and is parsed back
+    by flute with `close_session = true`, the given CCI / TSI, TOI 0, no EXT_FDT, no EXT_CENC -/
+theorem close_session_roundtrip (cci tsi : Nat) (hcci : cci < 2^128) (htsi : tsi < 2^48) :
+    ∃ d p f, newAlcPktCloseSession cci tsi = .ok d ∧ LctFields.Valid f ∧ d = f.encode ++ [0, 0, 0, 0] ∧
+      f.a = 1 ∧ f.b = 0 ∧ f.cci = cci ∧ f.tsi = tsi ∧ f.toi = 0 ∧ f.cp = 0 ∧
+      parseAlcPkt d = .ok p ∧
+      p.lct.closeSession = true ∧ p.lct.closeObject = false ∧ p.lct.cci = cci ∧ p.lct.tsi = tsi ∧ p.lct.toi = 0 ∧
+      p.lct.cp = 0 ∧ p.fdtInfo = none ∧ p.cenc = none ∧
+      p.oti = some (otiOf 0 0 0 0 0 .none) ∧ p.transferLength = some 0 ∧
+      p.payloadOffset = d.length := by
+  let oti : Oti := { fecId := NOCODE, inst := 0, maxSbl := 0, esl := 0, parity := 0, ss := .none, inbandFti := true }
+  have hfti := fti_nocode_roundtrip oti 0 rfl (by decide) (by decide) (by decide)
+  generalize hw : Spec.encode (ftiNoCode 0 oti.esl oti.maxSbl) = w at hfti
+  obtain ⟨hv0, hb0⟩ := pushLctHeader_eq_spec 0 cci tsi 0 0 false true (by omega) (by omega) hcci htsi (by decide)
+  have hl0 := specOfBuild_hdrLen_le 0 cci tsi 0 0 false true hcci htsi (by decide)
+  generalize hf0 : specOfBuild 0 cci tsi 0 0 false true = f0 at hv0 hb0 hl0
+  have hex0 : f0.exts = [] := by rw [← hf0]; rfl
+  obtain ⟨hs, hv1⟩ := extendInc_encode f0 hv0 w 64 4 hfti.ext (by omega)
+  obtain ⟨_, hee, _, _⟩ := extOfBytes_spec hfti.ext
+  generalize hf1 : f0.addExt (extOfBytes w) = f1 at hs hv1
+  have hE : f1.exts = [extOfBytes w] := by rw [← hf1]; simp [LctFields.addExt, hex0]
+  have hbuild : newAlcPktCloseSession cci tsi = .ok (f1.encode ++ [0, 0, 0, 0]) := by
+    unfold newAlcPktCloseSession
+    simp only []
+    have : addFti { fecId := 0, inst := 0, maxSbl := 0, esl := 0, parity := 0, ss := .none, inbandFti := true } 0 =
+        .ok (w, 4) := hfti.build
+    rw [show (NOCODE : Nat) = 0 from rfl]
+    rw [hb0, this]
+    simp only []
+    rw [hs]
+    rfl
+  have hfind : ∀ t, (findExt f1.exts t).map Ext.encode = if t = 64 then some w else none := by
+    intro t
+    have hh := (extOfBytes_spec hfti.ext).2.2.1
+    rw [hE]; unfold findExt
+    by_cases h : t = 64
+    · subst h; simp [hh, hee]
+    · have : ¬ (extOfBytes w).het = t := by rw [hh]; omega
+      simp [this, h]
+  have g64 := getExt_encode f1 hv1 [0, 0, 0, 0] 64
+  have g193 := getExt_encode f1 hv1 [0, 0, 0, 0] 193
+  have g192 := getExt_encode f1 hv1 [0, 0, 0, 0] 192
+  rw [hfind] at g64 g193 g192
+  simp only [if_true, show ¬ (193 = 64) by decide, show ¬ (192 = 64) by decide, if_false] at g64 g193 g192
+  have hcp : (parsedOf f1).cp = 0 := by rw [← hf1, ← hf0]; rfl
+  have htoi : (parsedOf f1).toi = 0 := by rw [← hf1, ← hf0]; rfl
+  have hparse : parseAlcPkt (f1.encode ++ [0, 0, 0, 0]) =
+      .ok { lct := parsedOf f1, oti := some (otiOf 0 0 0 0 0 .none), transferLength := some 0, cenc := none,
+            fdtInfo := none, alcHeaderOffset := (parsedOf f1).len, payloadOffset := 4 + (parsedOf f1).len } := by
+    unfold parseAlcPkt
+    rw [parseLctHeader_encode f1 hv1 _, Out.bind_ok, hcp]
+    rw [if_neg (by decide)]
+    simp only []
+    rw [if_neg (by
+      rw [List.length_append, length_encode f1 hv1]
+      show ¬ (payloadIdLen 0 + 4 * f1.hdrLen > 4 * f1.hdrLen + 4)
+      have : payloadIdLen 0 = 4 := rfl
+      omega)]
+    unfold getFti
+    rw [show EXT_FTI = 64 from rfl, g64, Out.bind_ok]
+    simp only []
+    rw [show getFtiBytes 0 w = .ok (otiOf 0 0 0 0 0 .none, 0) from hfti.parse, Out.bind_ok, Out.bind_ok,
+      show EXT_CENC = 193 from rfl, g193, Out.bind_ok]
+    unfold fdtInfoOf
+    rw [htoi, if_pos rfl, show EXT_FDT = 192 from rfl, g192]
+    rfl
+  refine ⟨_, _, f1, hbuild, hv1, rfl, ?_, ?_, ?_, ?_, ?_, ?_, hparse, ?_, ?_, ?_, ?_, ?_, ?_, rfl, rfl, rfl, rfl, ?_⟩
+  all_goals first
+    | (rw [← hf1, ← hf0]; rfl)
+    | skip
+  show 4 + (parsedOf f1).len = (f1.encode ++ [0, 0, 0, 0]).length
+  rw [List.length_append, length_encode f1 hv1]; show 4 + 4 * f1.hdrLen = _; simp only [List.length_cons, List.length_nil]; omega
+
+/-! ## the independent RFC implementation is itself consistent (`Spec.decode ∘ Spec.encode = id`) -/
+
+/-- **spec_lct_roundtrip**: the spec's LCT decoder on the spec encoding of any valid header (any legal widths, any
+    extension list; `hel = 0` on fixed-length extensions, where the field does not exist), followed by any
+    octets, returns the header and its length -/
+theorem spec_lct_roundtrip (f : LctFields) (hv : f.Valid) (hc : ∀ e ∈ f.exts, e.Canon) (payload : List Nat)
+    (hp : Wf payload) : decodeLct (f.encode ++ payload) = some (f, 4 * f.hdrLen) :=
+  decodeLct_encode f hv hc payload hp
+
+/-- the extension list on its own -/
+theorem spec_exts_roundtrip (exts : List Ext) (hv : ∀ e ∈ exts, e.Valid) (hc : ∀ e ∈ exts, e.Canon) :
+    decodeExts (encodeExts exts).length (encodeExts exts) = some exts :=
+  decodeExts_encodeExts exts hv hc _ (Nat.le_refl _)
+
+/-- EXT_FDT / EXT_CENC / EXT_TIME layouts -/
+theorem spec_ext_roundtrip (v id c secs frac : Nat) (hv : v < 2^4) (hid : id < 2^20) (hc : c < 2^8) (h1 : secs < 2^32)
+    (h2 : frac < 2^32) :
+    decodeExtFdt (Spec.encode (extFdtDiagram v id)) = some (v, id) ∧
+    decodeExtCenc (Spec.encode (extCencDiagram c)) = some c ∧
+    decodeExtTimeSct (Spec.encode (extTimeSctDiagram secs frac)) = some (secs, frac) :=
+  ⟨decodeExtFdt_encode v id hv hid, decodeExtCenc_encode c hc, decodeExtTimeSct_encode secs frac h1 h2⟩
+
+/-- every EXT_FTI layout, over the whole field ranges -/
+theorem spec_fti_roundtrip (L inst E B maxN m G Z N Al : Nat) :
+    (L < 2^48 → E < 2^16 → B < 2^32 → decodeFti 0 (Spec.encode (ftiNoCode L E B)) = some [L, E, B]) ∧
+    (L < 2^48 → inst < 2^16 → E < 2^16 → B < 2^16 → maxN < 2^16 →
+      decodeFti 129 (Spec.encode (ftiSmallBlock L inst E B maxN)) = some [L, inst, E, B, maxN]) ∧
+    (L < 2^48 → E < 2^16 → B < 2^8 → maxN < 2^8 → decodeFti 5 (Spec.encode (ftiRs28 L E B maxN)) = some [L, E, B, maxN]) ∧
+    (L < 2^48 → m < 2^8 → G < 2^8 → E < 2^16 → B < 2^16 → maxN < 2^16 →
+      decodeFti 2 (Spec.encode (ftiRs2m L m G E B maxN)) = some [L, m, G, E, B, maxN]) ∧
+    (L < 2^40 → E < 2^16 → Z < 2^8 → N < 2^16 → Al < 2^8 →
+      decodeFti 6 (Spec.encode (ftiRaptorQ L E Z N Al)) = some [L, E, Z, N, Al]) ∧
+    (L < 2^48 → E < 2^16 → Z < 2^16 → N < 2^8 → Al < 2^8 →
+      decodeFti 1 (Spec.encode (ftiRaptor L E Z N Al)) = some [L, E, Z, N, Al]) :=
+  ⟨decodeFti_nocode L E B, decodeFti_smallblock L inst E B maxN, decodeFti_rs28 L E B maxN,
+   decodeFti_rs2m L m G E B maxN, decodeFti_raptorq L E Z N Al, decodeFti_raptor L E Z N Al⟩
+
+/-- every FEC payload id layout, over each scheme's SBN / ESI range -/
+theorem spec_fpid_roundtrip (sbn esi sbl m : Nat) :
+    (sbn < 2^16 → esi < 2^16 → decodeFpid 0 8 (Spec.encode (fpidNoCode sbn esi)) = some (sbn, esi, none)) ∧
+    (sbn < 2^16 → esi < 2^16 → decodeFpid 1 8 (Spec.encode (fpidRaptor sbn esi)) = some (sbn, esi, none)) ∧
+    (sbn < 2^24 → esi < 2^8 → decodeFpid 5 8 (Spec.encode (fpidRs28 sbn esi)) = some (sbn, esi, none)) ∧
+    (sbn < 2^8 → esi < 2^24 → decodeFpid 6 8 (Spec.encode (fpidRaptorQ sbn esi)) = some (sbn, esi, none)) ∧
+    (sbn < 2^32 → sbl < 2^16 → esi < 2^16 →
+      decodeFpid 129 8 (Spec.encode (fpidSmallBlock sbn sbl esi)) = some (sbn, esi, some sbl)) ∧
+    (m ≤ 32 → sbn < 2^(32 - m) → esi < 2^m → decodeFpid 2 m (Spec.encode (fpidRs2m m sbn esi)) = some (sbn, esi, none)) :=
+  ⟨decodeFpid_nocode sbn esi, decodeFpid_raptor sbn esi, decodeFpid_rs28 sbn esi, decodeFpid_raptorq sbn esi,
+   decodeFpid_smallblock sbn sbl esi, decodeFpid_rs2m m sbn esi⟩
+
 end Flute.Props.C06
